@@ -70,6 +70,8 @@ class Contract:
                 continue
             st.set(p.name, self.symbolic_param(eng, st, p), declare=True)
         cx = Ctx(eng, st)
+        x = z3.Const('x!pyax', Ref)
+        st.facts.append(z3.ForAll([x], M.py_len(x) >= 0, patterns=[M.py_len(x)]))      # len() is never negative
         for name, e in self.pre(cx):
             st.facts.append(e)
         return cx
@@ -156,3 +158,11 @@ def sanity(view: WFView):
     """Consequences of PYTREESPEC_SANITY_CHECK."""
     n = view.v.len
     return z3.And(n >= 1, view.NN(n - 1) == n)
+
+
+def forall(vs, body, patterns=()):
+    """ForAll with patterns where z3 accepts them (terms that are not valid patterns, e.g. in post-states with stores)."""
+    try:
+        return z3.ForAll(vs, body, patterns=list(patterns)) if patterns else z3.ForAll(vs, body)
+    except z3.Z3Exception:
+        return z3.ForAll(vs, body)
